@@ -3496,6 +3496,9 @@ class __implementations__:
             newshape = (*newshape[:i], length, *newshape[i+1:])
         elif numpy.prod(newshape, initial=1) != arg.size:
             raise ValueError(f'cannot reshape array of size {arg.size} into shape {newshape}')
+        if arg.size == 0: # nothing to rearrange, and the ravel/unravel steps below cannot handle empty axes
+            ndim = arg.ndim
+            return _Wrapper(lambda a: evaluable.Zeros((*a.shape[:a.ndim-ndim], *map(evaluable.constant, newshape)), a.dtype), arg, shape=newshape, dtype=arg.dtype)
         ncommon = 0
         while arg.ndim > ncommon and len(newshape) > ncommon and arg.shape[ncommon] == newshape[ncommon]:
             ncommon += 1
